@@ -240,8 +240,9 @@ class Polylist(primitive.Primitive):
 
         if self._triangleset is None:
             indexselector = numpy.zeros(self.nvertices) == 0
-            indexselector[self.polyindex[:, 1] - 1] = False
-            indexselector[self.polyindex[:, 1] - 2] = False
+            vcounts = numpy.asarray(self.vcounts)
+            indexselector[self.polyends[vcounts >= 1] - 1] = False
+            indexselector[self.polyends[vcounts >= 2] - 2] = False
             indexselector = numpy.arange(self.nvertices)[indexselector]
 
             firstpolyindex = numpy.arange(self.nvertices)
